@@ -1,4 +1,4 @@
-\* as-is: delay truncated to whole seconds -> renewal before half the lifetime
+\* demo (repaired in 2282172): delay truncated to whole seconds -> renewal before half the lifetime
 CONSTANTS
   Lifetimes <- LifetimesQ
   Dev_RenewFloorSeconds = TRUE
